@@ -213,23 +213,30 @@ Qed.
 
 (* an entry of info["files"] as check_paths reads it: a dictionary with an integer "length" and a
    non-empty list of strings under "path" (other keys, e.g. "attr", are not looked at) *)
-Definition item_ok (it : value) (e : list bytes * Z) : Prop :=
-  exists d, it = BDict d /\ lookup ck_length d = Some (BInt (snd e)) /\
-            lookup ck_path d = Some (BList (map BStr (fst e))) /\ fst e <> [].
+Definition item_ok (it : value) (e : v1_entry) : Prop :=
+  exists d, it = BDict d /\ lookup ck_length d = Some (BInt (ve_length e)) /\
+            lookup ck_path d = Some (BList (map BStr (ve_path e))) /\ ve_path e <> [] /\
+            attr_of d = Some (ve_attr e).
 
 Lemma v1_files_gen root items descr : Forall2 item_ok items descr ->
-  v1_files root items = Some (map (fun e => mk_fi (root ++ fst e) (snd e) None) descr).
+  v1_files root items = Some (map (fun e => mk_fi (root ++ ve_path e) (ve_length e) None (ve_attr e)) descr).
 Proof.
-  induction 1 as [|it [cs n] items descr (d & -> & El & Ep & Hne) _ IH]; [reflexivity|].
-  cbn [v1_files map fst snd] in *. rewrite El, Ep, comps_of_strs.
+  induction 1 as [|it [[cs n] a] items descr (d & -> & El & Ep & Hne & Ea) _ IH]; [reflexivity|].
+  cbn [v1_files map ve_path ve_length ve_attr fst snd] in *. rewrite El, Ep, comps_of_strs, Ea.
   destruct cs as [|c cs]; [contradiction|]. rewrite IH. reflexivity.
 Qed.
 
-Lemma file_entry_ok rel n : rel <> [] -> item_ok (file_entry rel n) (rel, Z.of_nat n).
-Proof. intros Hne. eexists. split; [reflexivity|]. cbn [fst snd]. repeat split; try reflexivity. exact Hne. Qed.
+Lemma file_entry_ok rel n : rel <> [] -> item_ok (file_entry rel n) (rel, Z.of_nat n, None).
+Proof.
+  intros Hne. eexists. split; [reflexivity|]. cbn [ve_path ve_length ve_attr fst snd].
+  repeat split; try reflexivity. exact Hne.
+Qed.
 
-Lemma pad_entry_ok n : item_ok (pad_entry n) ([s_pad; dec_of_nat n], Z.of_nat n).
-Proof. eexists. split; [reflexivity|]. cbn [fst snd]. repeat split; try reflexivity. discriminate. Qed.
+Lemma pad_entry_ok n : item_ok (pad_entry n) ([s_pad; dec_of_nat n], Z.of_nat n, Some s_p).
+Proof.
+  eexists. split; [reflexivity|]. cbn [ve_path ve_length ve_attr fst snd].
+  repeat split; try reflexivity. discriminate.
+Qed.
 
 (* the generalisation of C05_v1 that also covers entries without a file (pad files): whatever the disk
    state, if the recorded digests are those of its zero-filled stream then everything matches *)
@@ -263,7 +270,14 @@ Definition v1_layout (align : bool) (pl : nat) (fl : list (list bytes * bytes)) 
   if align then flat_map (aligned_layout pl) fl
   else map (fun f => (fst f, length (snd f), Some (snd f))) fl.
 
-Definition layout_descr (x : layout_item) : list bytes * Z := (li_path x, Z.of_nat (li_len x)).
+(* an entry without a file is a pad entry: attr "p" *)
+Definition li_attr (x : layout_item) : option bytes :=
+  match li_disk x with Some _ => None | None => Some s_p end.
+
+Definition layout_descr (x : layout_item) : v1_entry := (li_path x, Z.of_nat (li_len x), li_attr x).
+
+Definition layout_fi (root : cpath) (x : layout_item) : fileinfo :=
+  mk_fi (root ++ li_path x) (Z.of_nat (li_len x)) None (li_attr x).
 
 Lemma v1_items_ok align pl fl : Forall (fun f => fst f <> []) fl ->
   match v1_files_value align pl fl with
@@ -316,14 +330,6 @@ Definition v1_size (align : bool) (pl : nat) (fl : list (list bytes * bytes)) : 
 Lemma v1_size_plain pl fl : v1_size false pl fl = sum_nat (map (fun f => length (snd f)) fl).
 Proof. unfold v1_size, v1_layout. rewrite map_map. reflexivity. Qed.
 
-Lemma sum_lengths_descr l :
-  sum_lengths (map (fun e => mk_fi (fst e) (snd e) None) (map (fun x => (fst (layout_descr x), snd (layout_descr x))) l))
-  = Z.of_nat (sum_nat (map li_len l)).
-Proof.
-  induction l as [|x l IH]; [reflexivity|]. cbn [map sum_lengths fold_right sum_nat fi_length] in *.
-  unfold sum_lengths in IH. rewrite IH. cbn [layout_descr snd]. unfold sum_nat. lia.
-Qed.
-
 Section V1.
 Variable H1 H256 : bytes -> bytes.
 Variable B : nat.
@@ -337,14 +343,16 @@ Lemma recheck_v1_layout fs info root (lay : list layout_item) pl pieces_stream :
   lookup ck_pieces info = Some (BStr (concat (map H1 (chunks pl pieces_stream)))) ->
   spec_stream_v1 (map li_len lay) (map li_disk lay) = pieces_stream ->
   disk_within (map li_len lay) (map li_disk lay) ->
-  let fis := map (fun x => mk_fi (root ++ li_path x) (Z.of_nat (li_len x)) None) lay in
-  Forall (fun x => disk_entry fs (root ++ li_path x) = Some (li_disk x)) lay ->
-  recheck_v1_model H1 fs info fis = Some (sum_nat (map li_len lay), sum_nat (map li_len lay)).
+  Forall (fun x => forall d, li_disk x = Some d -> disk_entry fs (root ++ li_path x) = Some (Some d)) lay ->
+  recheck_v1_model H1 fs info (map (layout_fi root) lay) =
+  Some (sum_nat (map li_len lay), sum_nat (map li_len lay)).
 Proof.
-  intros Hpl Epl Epc Es Hw fis Hd. unfold recheck_v1_model, feed_init, piece_length_of.
-  rewrite Epl, nat_of_len_of_nat, Epc. unfold fis. rewrite !map_map. cbn [fi_length fi_path].
+  intros Hpl Epl Epc Es Hw Hd. unfold recheck_v1_model, feed_init, piece_length_of.
+  rewrite Epl, nat_of_len_of_nat, Epc. rewrite !map_map. cbn [layout_fi fi_length].
   rewrite (all_some_map_ext _ li_len) by (apply Forall_forall; intros x _; apply nat_of_len_of_nat).
-  rewrite (all_some_map_ext _ li_disk) by exact Hd.
+  rewrite (all_some_map_ext _ li_disk).
+  2:{ eapply Forall_impl; [|exact Hd]. intros x Hx. unfold feed_entry, fi_padding, layout_fi, li_attr.
+      cbn [fi_attr fi_path]. destruct (li_disk x) as [d|] eqn:E; [exact (Hx d E)|reflexivity]. }
   unfold SHA1_LEN. rewrite cut_digests by (exact H1_len || lia).
   rewrite <- Es. f_equal.
   apply (feed_matches_own_stream H1 pl (map li_len lay) (map li_disk lay) Hpl);
@@ -357,8 +365,8 @@ Lemma check_paths_v1_dir info name root f items descr :
   lookup ck_length info = None -> lookup ck_meta_version info = None ->
   lookup ck_files info = Some (BList items) -> Forall2 item_ok items descr ->
   check_paths info name root f =
-  Some (map (fun e => mk_fi (root ++ fst e) (snd e) None) descr,
-        sum_lengths (map (fun e => mk_fi (root ++ fst e) (snd e) None) descr)).
+  Some (map (fun e => mk_fi (root ++ ve_path e) (ve_length e) None (ve_attr e)) descr,
+        sum_lengths (map (fun e => mk_fi (root ++ ve_path e) (ve_length e) None (ve_attr e)) descr)).
 Proof.
   intros El Ev Ef Hok. unfold check_paths, single_length, meta_version_of, has. rewrite El, Ev.
   cbn [Nat.eqb]. rewrite Ef, (v1_files_gen root items descr Hok). reflexivity.
@@ -366,18 +374,17 @@ Qed.
 
 Lemma check_paths_v1_single info name root f n :
   lookup ck_length info = Some (BInt n) -> lookup ck_meta_version info = None ->
-  check_paths info name root f = Some ([mk_fi root n None], n).
+  check_paths info name root f = Some ([mk_fi root n None None], n).
 Proof.
   intros El Ev. unfold check_paths, single_length, meta_version_of, has. rewrite El, Ev. reflexivity.
 Qed.
 
 Lemma sum_lengths_layout root lay :
-  sum_lengths (map (fun e => mk_fi (root ++ fst e) (snd e) None) (map layout_descr lay)) =
-  Z.of_nat (sum_nat (map li_len lay)).
+  sum_lengths (map (layout_fi root) lay) = Z.of_nat (sum_nat (map li_len lay)).
 Proof.
   induction lay as [|x lay IH]; [reflexivity|].
   cbn [map]. change (sum_lengths (?a :: ?l)) with (fi_length a + sum_lengths l)%Z.
-  rewrite IH. cbn [fi_length layout_descr snd]. unfold sum_nat. cbn [fold_right]. lia.
+  rewrite IH. cbn [fi_length layout_fi]. unfold sum_nat. cbn [fold_right]. lia.
 Qed.
 
 (* ---------- the v1 creator ---------- *)
@@ -403,23 +410,20 @@ Proof.
   apply files_of_Dir_in in Hin. destruct Hin as (e & p' & _ & -> & _). discriminate.
 Qed.
 
-(* what the aligned creator needs of the file system besides [holds]: no pad path exists *)
-Definition no_pad_files (fs : fsys) (base : cpath) : Prop :=
-  forall n, fs_exists fs (base ++ [s_pad; dec_of_nat n]) = false.
-
 Lemma layout_on_disk fs base t align pl fl :
-  holds fs base t -> (align = true -> no_pad_files fs base) ->
-  (forall f, In f fl -> In f (files_of [] t)) ->
-  Forall (fun x => disk_entry fs (base ++ li_path x) = Some (li_disk x)) (v1_layout align pl fl).
+  holds fs base t -> (forall f, In f fl -> In f (files_of [] t)) ->
+  Forall (fun x => forall d, li_disk x = Some d -> disk_entry fs (base ++ li_path x) = Some (Some d))
+         (v1_layout align pl fl).
 Proof.
-  intros Hh Hp Hfl. unfold v1_layout. destruct align.
-  - specialize (Hp eq_refl). apply Forall_forall. intros x Hx. apply in_flat_map in Hx.
+  intros Hh Hfl. unfold v1_layout. destruct align.
+  - apply Forall_forall. intros x Hx. apply in_flat_map in Hx.
     destruct Hx as ([p d] & Hf & Hx). unfold aligned_layout in Hx. cbv zeta in Hx. cbn [fst snd] in Hx.
     destruct Hx as [<-|Hx].
-    + cbn [li_path li_disk fst snd]. apply (holds_disk_entry fs base t p d Hh). apply Hfl. exact Hf.
+    + cbn [li_path li_disk fst snd]. intros d' [= <-].
+      apply (holds_disk_entry fs base t p d Hh). apply Hfl. exact Hf.
     + destruct (neg_mod (length d) pl =? 0); [destruct Hx|]. destruct Hx as [<-|[]].
-      cbn [li_path li_disk fst snd]. unfold disk_entry. rewrite Hp. reflexivity.
-  - apply Forall_map. apply Forall_forall. intros [p d] Hf. cbn [li_path li_disk fst snd].
+      cbn [li_disk snd]. discriminate.
+  - apply Forall_map. apply Forall_forall. intros [p d] Hf. cbn [li_path li_disk fst snd]. intros d' [= <-].
     apply (holds_disk_entry fs base t p d Hh). apply Hfl. exact Hf.
 Qed.
 
@@ -433,11 +437,11 @@ Definition v1_recorded_size (align : bool) (rootstr : bytes) (pl : nat) (t : nod
 Theorem own_v1_verify align o rootstr name pl t fs base path :
   0 < pl -> wf_node t -> has_file t ->
   find_root (fs_exists fs) (fs_listdir fs) name path = Some base ->
-  holds fs base t -> (align = true -> no_pad_files fs base) ->
+  holds fs base t ->
   let n := v1_recorded_size align rootstr pl t in
   recheck_model H1 H256 B fs (create_v1 H1 align o rootstr name pl t) path = Some (Z.of_nat n, n, n).
 Proof.
-  intros Hpl Hwf Hf Hroot Hh Hpad n.
+  intros Hpl Hwf Hf Hroot Hh n.
   set (m := create_v1 H1 align o rootstr name pl t).
   destruct (create_v1_name_piece_length H1 align o rootstr name pl t) as [En Epl]. cbv zeta in En, Epl.
   fold m in En, Epl.
@@ -450,17 +454,17 @@ Proof.
   - (* single file *)
     destruct (create_v1_single_file H1 align o rootstr name pl d Hpl) as (El & _ & Ep). cbv zeta in El, Ep.
     fold m in El, Ep.
-    rewrite (recheck_model_eq H1 H256 B fs m path name base [mk_fi base (Z.of_nat (length d)) None]
+    rewrite (recheck_model_eq H1 H256 B fs m path name base [mk_fi base (Z.of_nat (length d)) None None]
                (Z.of_nat (length d)) (create_v1_reads_info _ _ _ _ _ _) En Hroot).
     2:{ apply check_paths_v1_single; [exact El|exact Ev]. }
     rewrite Hmv. cbn [Nat.eqb].
     pose proof (recheck_v1_layout fs (info_of m) base [([], length d, Some d)] pl d Hpl Epl Ep) as R.
-    cbv zeta in R. cbn [map li_len li_disk li_path fst snd sum_nat fold_right] in R.
+    cbn [map] in R. unfold layout_fi, li_attr in R. cbn [li_len li_disk li_path fst snd sum_nat fold_right] in R.
     rewrite app_nil_r, Nat.add_0_r in R. unfold n. cbn [v1_recorded_size]. rewrite R; [reflexivity| | |].
     + unfold spec_stream_v1. cbn [map2 concat zero_fill]. rewrite Nat.sub_diag. cbn [zeros repeat].
       rewrite !app_nil_r. reflexivity.
     + cbn [disk_within file_within]. split; [apply le_n|exact I].
-    + constructor; [|constructor]. cbn [li_path li_disk fst snd]. rewrite app_nil_r.
+    + constructor; [|constructor]. cbn [li_path li_disk fst snd]. rewrite app_nil_r. intros d' [= <-].
       specialize (Hfiles [] d (or_introl eq_refl)). rewrite app_nil_r in Hfiles. destruct Hfiles as [E R'].
       unfold disk_entry. rewrite E, R'. reflexivity.
   - (* directory *)
@@ -484,17 +488,18 @@ Proof.
     destruct (v1_files_value align pl fl) as [| |items|] eqn:Eitems; try contradiction.
     set (lay := v1_layout align pl fl) in *.
     rewrite (recheck_model_eq H1 H256 B fs m path name base
-               (map (fun e => mk_fi (base ++ fst e) (snd e) None) (map layout_descr lay))
+               (map (layout_fi base) lay)
                (Z.of_nat (sum_nat (map li_len lay))) (create_v1_reads_info _ _ _ _ _ _) En Hroot).
     2:{ rewrite <- sum_lengths_layout with (root := base).
-        apply check_paths_v1_dir with (items := items); assumption. }
-    rewrite Hmv. cbn [Nat.eqb]. rewrite map_map.
+        rewrite (check_paths_v1_dir (info_of m) name base (fs_isfile fs base) items (map layout_descr lay))
+          by assumption.
+        rewrite map_map. reflexivity. }
+    rewrite Hmv. cbn [Nat.eqb].
     pose proof (recheck_v1_layout fs (info_of m) base lay pl _ Hpl Epl Epieces
                   (v1_layout_stream align pl fl) (v1_layout_within align pl fl)) as R.
-    cbv zeta in R.
     match goal with |- match ?X with _ => _ end = _ =>
       assert (RX : X = Some (sum_nat (map li_len lay), sum_nat (map li_len lay))) end.
-    { apply R. apply (layout_on_disk fs base (Dir es)); [exact (conj Hex (conj Hisf Hfiles))|exact Hpad|].
+    { apply R. apply (layout_on_disk fs base (Dir es)); [exact (conj Hex (conj Hisf Hfiles))|].
       intros f Hin. apply (Permutation_in _ Hperm). exact Hin. }
     rewrite RX. reflexivity.
 Qed.
@@ -515,20 +520,17 @@ Theorem own_v1_plain_verify o rootstr name pl t fs base path :
 Proof.
   intros Hpl Hwf Hf Hlast Hh.
   pose proof (own_v1_verify false o rootstr name pl t fs base path Hpl Hwf Hf Hlast Hh) as R.
-  cbv zeta in R. rewrite v1_recorded_size_plain in R. apply R. discriminate.
+  cbv zeta in R. rewrite v1_recorded_size_plain in R. exact R.
 Qed.
 
-(* --align: every entry of info["files"] is accounted for, the pad entries as zeros *)
+(* --align: every entry of info["files"] is accounted for, the pad entries as zeros -- whatever the file system
+   holds at their paths (since the repair of D39; before it: aligned_pad_path_collision_before_repair_refuted) *)
 Theorem own_v1_aligned_verify o rootstr name pl t fs base path :
   0 < pl -> wf_node t -> has_file t ->
   find_root (fs_exists fs) (fs_listdir fs) name path = Some base -> holds fs base t ->
-  no_pad_files fs base ->
   let n := v1_recorded_size true rootstr pl t in
   recheck_model H1 H256 B fs (create_v1 H1 true o rootstr name pl t) path = Some (Z.of_nat n, n, n).
-Proof.
-  intros Hpl Hwf Hf Hroot Hh Hp.
-  apply (own_v1_verify true o rootstr name pl t fs base path Hpl Hwf Hf Hroot Hh). intros _. exact Hp.
-Qed.
+Proof. exact (own_v1_verify true o rootstr name pl t fs base path). Qed.
 
 (* with --align the recorded size of a directory payload is every file rounded up to the piece length *)
 Lemma v1_recorded_size_aligned rootstr pl es :
@@ -552,7 +554,7 @@ Theorem own_v1_check_paths o rootstr name pl es base f :
   let fl := snd (filelist_total rootstr (Dir es)) in
   Permutation fl (files_of [] (Dir es)) /\
   check_paths (info_of m) name base f =
-  Some (map (fun x => mk_fi (base ++ fst x) (Z.of_nat (length (snd x))) None) fl,
+  Some (map (fun x => mk_fi (base ++ fst x) (Z.of_nat (length (snd x))) None None) fl,
         Z.of_nat (sum_nat (map (fun x => length (snd x)) fl))).
 Proof.
   cbv zeta. set (m := create_v1 H1 false o rootstr name pl (Dir es)).
@@ -562,8 +564,10 @@ Proof.
   pose proof (create_v1_no_meta_version false o rootstr name pl (Dir es)) as Ev. fold m in Ev.
   pose proof (v1_items_ok false pl fl (filelist_dir_paths_nonempty rootstr es)) as Hok.
   unfold v1_files_value in Hok.
-  rewrite (check_paths_v1_dir (info_of m) name base f _ _ El Ev Ef Hok), sum_lengths_layout.
-  unfold v1_layout. rewrite !map_map. reflexivity.
+  rewrite (check_paths_v1_dir (info_of m) name base f _ _ El Ev Ef Hok).
+  rewrite (map_map layout_descr). change (fun x => mk_fi (base ++ ve_path (layout_descr x))
+    (ve_length (layout_descr x)) None (ve_attr (layout_descr x))) with (layout_fi base).
+  rewrite sum_lengths_layout. unfold v1_layout. rewrite !map_map. reflexivity.
 Qed.
 
 Theorem own_v1_recorded_digests o rootstr name pl es :
@@ -640,10 +644,10 @@ Definition root_opt (d : bytes) : option bytes := if length d =? 0 then None els
 
 (* the fileinfo entry of a file: base/<components>, its length, its root unless it is empty *)
 Definition fi_of (base : cpath) (f : list bytes * bytes) : fileinfo :=
-  mk_fi (base ++ fst f) (Z.of_nat (length (snd f))) (root_opt (snd f)).
+  mk_fi (base ++ fst f) (Z.of_nat (length (snd f))) (root_opt (snd f)) None.
 
 Lemma leaf_info_value full d :
-  leaf_info full (leaf_value d) = Some (mk_fi full (Z.of_nat (length d)) (root_opt d)).
+  leaf_info full (leaf_value d) = Some (mk_fi full (Z.of_nat (length d)) (root_opt d) None).
 Proof. destruct d; reflexivity. Qed.
 
 Lemma walk_entries base (es : list (bytes * node)) :
@@ -712,7 +716,7 @@ Lemma check_paths_v2_single info name base f d v :
   lookup ck_length info = Some (BInt (Z.of_nat (length d))) -> lookup ck_meta_version info = Some v ->
   lookup ck_file_tree info = Some (BDict [(name, BDict [(k_empty, leaf_value d)])]) ->
   check_paths info name base f =
-  Some ([mk_fi base (Z.of_nat (length d)) (root_opt d)], Z.of_nat (length d)).
+  Some ([mk_fi base (Z.of_nat (length d)) (root_opt d) None], Z.of_nat (length d)).
 Proof.
   intros El Ev Et. unfold check_paths, single_length. rewrite El.
   destruct (mv_not_1 info v Ev) as [_ E2]. rewrite E2, Et. cbn [lookup]. rewrite Lex.bytes_eqb_refl.
@@ -724,7 +728,7 @@ Qed.
 Lemma hash_file_own fs layers path (d : bytes) :
   disk_entry fs path = Some (Some d) ->
   (pl < length d -> lookup (root d) layers = Some (BStr (concat (layer d)))) ->
-  hash_file H256 B fs layers pl (mk_fi path (Z.of_nat (length d)) (root_opt d)) =
+  hash_file H256 B fs layers pl (mk_fi path (Z.of_nat (length d)) (root_opt d) None) =
   Some (v2_listed H256 B k pl d (Some d)).
 Proof.
   intros Ed El. unfold hash_file. cbn [fi_length fi_path fi_root]. rewrite nat_of_len_of_nat, Ed.
@@ -854,7 +858,7 @@ Proof.
             all_some (map (hash_file H256 B fs (layers_of m) pl) fis) =
             Some (map (fun d => v2_listed H256 B k pl d (Some d)) (map snd files))).
   { destruct t as [d|es].
-    - exists [mk_fi base (Z.of_nat (length d)) (root_opt d)]. split.
+    - exists [mk_fi base (Z.of_nat (length d)) (root_opt d) None]. split.
       + rewrite (check_paths_v2_single (info_of m) name base _ d _ El Ev).
         * unfold tree_size. cbn [files_of map snd sum_nat fold_right]. rewrite Nat.add_0_r. reflexivity.
         * etransitivity; [exact Et|]. unfold CreatorsProofs2.file_tree_value, CreatorsProofs2.tree_spec.
@@ -907,10 +911,49 @@ Proof.
   right; exact Hm.
 Qed.
 
-(* --align and a payload that itself has a file at a pad path (.pad/<n>): the pad entry's path exists, so
-   FeedChecker hashes that file's bytes where the creator hashed zeros -- intact content, 50 %.  The guard
-   [no_pad_files] of own_v1_verify is exactly this case.  (Checked against the real code: a payload
-   {.pad/1 = "x", a = 16383 bytes}, piece length 16 KiB, align=True: Checker(...).results() = 50.0.) *)
+Lemma feed_entry_padding fs path n r : feed_entry fs (mk_fi path n r (Some ["p"%char])) = Some None.
+Proof. reflexivity. Qed.
+
+(* ---------- D39: the reading before the repair ---------- *)
+(* FeedChecker.iter_pieces as it was before commit 5b63ee0: `if os.path.exists(path):` without the look at "attr";
+   the rest of the checker unchanged.  Kept only to state what the repair changed. *)
+Definition feed_init_old (fs : fsys) (info : dict) (fis : list fileinfo)
+  : option (nat * list nat * list (option bytes) * list bytes) :=
+  match piece_length_of info, lookup ck_pieces info,
+        all_some (map (fun fi => nat_of_len (fi_length fi)) fis),
+        all_some (map (fun fi => disk_entry fs (fi_path fi)) fis) with
+  | Some pl, Some (BStr pieces), Some lens, Some disk => Some (pl, lens, disk, chunks SHA1_LEN pieces)
+  | _, _, _, _ => None
+  end.
+
+Definition recheck_v1_model_old (H1 : bytes -> bytes) (fs : fsys) (info : dict) (fis : list fileinfo)
+  : option (nat * nat) :=
+  match feed_init_old fs info fis with
+  | Some (pl, lens, disk, recorded) => Some (iter_hashes (feed_trace H1 pl lens disk recorded))
+  | None => None
+  end.
+
+Definition recheck_model_old (H1 H256 : bytes -> bytes) (B : nat) (fs : fsys) (m : value) (path : cpath)
+  : option (Z * nat * nat) :=
+  match m with
+  | BDict meta =>
+      match checker_init (fs_exists fs) (fs_isfile fs) (fs_listdir fs) meta path,
+            lookup ck_info meta with
+      | Some (_, fis, total), Some (BDict info) =>
+          match (if meta_version_of info =? 1 then recheck_v1_model_old H1 fs info fis
+                 else recheck_v2_model H256 B fs meta info fis) with
+          | Some (mt, cs) => Some (total, mt, cs)
+          | None => None
+          end
+      | _, _ => None
+      end
+  | _ => None
+  end.
+
+(* --align and a payload that itself has a file at a pad path (.pad/<n>): the pad entry's path exists, so the
+   old FeedChecker hashed that file's bytes where the creator hashed zeros -- intact content, 50 %.  (Real code
+   before the repair: payload {.pad/1 = "x", a = 16383 bytes}, piece length 16 KiB, align=True:
+   Checker(...).results() = 50.0.)  With the repair the same payload verifies: d39_payload_verifies. *)
 Module PadCollision.
 Import CreatorsExamples CreatorsProofs2Examples.
 Import String.StringSyntax.
@@ -920,20 +963,41 @@ Definition pad_base : cpath := [bs "w"; bs "r"].
 Definition pad_name : bytes := bs "r".
 Lemma pad_tree_wf : wf_node pad_tree.
 Proof. apply wf_nodeb_sound. vm_compute. reflexivity. Qed.
+Lemma pad_has_file : has_file pad_tree.
+Proof. vm_compute. discriminate. Qed.
+Lemma pad_find_root :
+  find_root (fs_exists (disk_of pad_base pad_tree)) (fs_listdir (disk_of pad_base pad_tree)) pad_name pad_base
+  = Some pad_base.
+Proof. reflexivity. Qed.
 End PadCollision.
 
-Theorem aligned_pad_path_collision_refuted :
+Theorem aligned_pad_path_collision_before_repair_refuted :
   exists (H1 H256 : bytes -> bytes) (B : nat) o rootstr name pl t fs base,
     (forall x, length (H1 x) = 20) /\ 0 < pl /\ wf_node t /\ has_file t /\ last base [] = name /\
     holds fs base t /\
-    recheck_model H1 H256 B fs (create_v1 H1 true o rootstr name pl t) base = Some (8%Z, 4, 8).
+    recheck_model_old H1 H256 B fs (create_v1 H1 true o rootstr name pl t) base = Some (8%Z, 4, 8).
 Proof.
   exists CreatorsProofs2Examples.X1, CreatorsProofs2Examples.X256, 2, CreatorsExamples.ex_opts,
     PadCollision.pad_name, PadCollision.pad_name, 4, PadCollision.pad_tree, (disk_of PadCollision.pad_base PadCollision.pad_tree),
     PadCollision.pad_base.
   split; [exact CreatorsProofs2Examples.X1_len|]. split; [lia|]. split; [exact PadCollision.pad_tree_wf|].
-  split; [vm_compute; discriminate|]. split; [reflexivity|].
+  split; [exact PadCollision.pad_has_file|]. split; [reflexivity|].
   split; [apply disk_of_holds, PadCollision.pad_tree_wf|]. vm_compute. reflexivity.
+Qed.
+
+(* the very payload of D39 under the repaired code: by the theorem (no side condition left), and its value *)
+Example d39_payload_verifies :
+  recheck_model CreatorsProofs2Examples.X1 CreatorsProofs2Examples.X256 2
+    (disk_of PadCollision.pad_base PadCollision.pad_tree)
+    (create_v1 CreatorsProofs2Examples.X1 true CreatorsExamples.ex_opts PadCollision.pad_name PadCollision.pad_name 4
+       PadCollision.pad_tree) PadCollision.pad_base = Some (8%Z, 8, 8).
+Proof.
+  exact (own_v1_aligned_verify CreatorsProofs2Examples.X1 CreatorsProofs2Examples.X256 2
+           CreatorsProofs2Examples.X1_len CreatorsExamples.ex_opts PadCollision.pad_name PadCollision.pad_name 4
+           PadCollision.pad_tree (disk_of PadCollision.pad_base PadCollision.pad_tree)
+           PadCollision.pad_base PadCollision.pad_base (Nat.lt_0_succ 3) PadCollision.pad_tree_wf
+           PadCollision.pad_has_file PadCollision.pad_find_root
+           (disk_of_holds PadCollision.pad_base PadCollision.pad_tree PadCollision.pad_tree_wf)).
 Qed.
 
 (* ---------- examples: the theorems instantiated (toy hashes of the right lengths, B = 2, pl = 4) ---------- *)
@@ -961,17 +1025,12 @@ Proof.
            (Nat.lt_0_succ 3) ex_tree_wf ex_has_file ex_find_root ex_holds).
 Qed.
 
-Lemma ex_no_pads : no_pad_files ex_fs ex_base.
-Proof.
-  intros n. unfold ex_fs, disk_of. cbn [fs_exists]. rewrite tree_lookup_app. reflexivity.
-Qed.
-
 Example ex_own_v1_aligned :
   recheck_model X1 X256 2 ex_fs (create_v1 X1 true ex_opts (bs "r") (bs "r") 4 ex_tree) ex_base =
   Some (24%Z, 24, 24).
 Proof.
   exact (own_v1_verify X1 X256 2 X1_len true ex_opts (bs "r") (bs "r") 4 ex_tree ex_fs ex_base ex_base
-           (Nat.lt_0_succ 3) ex_tree_wf ex_has_file ex_find_root ex_holds (fun _ => ex_no_pads)).
+           (Nat.lt_0_succ 3) ex_tree_wf ex_has_file ex_find_root ex_holds).
 Qed.
 
 (* two files larger than pl = 4 ("hello", "0123456789") with different roots *)
@@ -1014,6 +1073,7 @@ Print Assumptions own_v2_only_verify.
 Print Assumptions own_hybrid_verify.
 Print Assumptions holds_find_root.
 Print Assumptions tree_size_pos.
-Print Assumptions aligned_pad_path_collision_refuted.
+Print Assumptions aligned_pad_path_collision_before_repair_refuted.
+Print Assumptions d39_payload_verifies.
 Print Assumptions own_v1_aligned_verify.
 Print Assumptions v1_recorded_size_aligned.
